@@ -1712,7 +1712,10 @@ func init() {
 			switch kind {
 			case "sargon":
 				points := &sargon.Points{}
-				s := sargon.Hook{Eval: search.AlphaBeta{Explore: sargon.SkipUnderPromotions, Eval: sargon.OnePlyIfChecked{Leaf: search.Leaf{Eval: gateEval{points, g}}}}, Hook: points}
+				// the halted search is made to unwind LATE: its return is held until its successor is under way (a few milliseconds
+				// into it), so that whatever it does on the way out (SARGON's hook forgets its reference values) meets a running successor
+				inner := &lateReturn{inner: search.AlphaBeta{Explore: sargon.SkipUnderPromotions, Eval: sargon.OnePlyIfChecked{Leaf: search.Leaf{Eval: gateEval{points, g}}}}}
+				s := sargon.Hook{Eval: inner, Hook: points}
 				return engine.New(ctx, "SARGON", "x", s, engine.WithOptions(engine.Options{}))
 			case "turochamp":
 				s := search.AlphaBeta{Eval: search.Quiescence{Explore: turochamp.ConsiderableMovesOnly, Eval: search.Leaf{Eval: gateEval{turochamp.Eval{}, g}}}}
@@ -1852,6 +1855,12 @@ func init() {
 		// ... the game includes its repetitions, however it got there: the engine analyses a fork of its board, possibly after
 		// take-backs - what it reports is what a search of the same game replayed from scratch reports (a move in the tree
 		// completes a third occurrence)
+		{
+			line := "published iterx plain 2 q6k/8/8/8/8/8/8/1R4K1 b - - 0 1 ; h8g8 b1c1 g8h8 c1b1 h8g8 b1c1 g8h8"
+			o.do(line)
+			o.Count("iterx:repetition-history")
+			o.Nontrivial(line)
+		}
 		for i, h := range []string{"g1f3 g8f6 f3g1 f6g8 g1f3 g8f6 f3g1", "g1f3 g8f6 f3g1 f6g8 g1f3 tb g1f3 g8f6 f3g1 f6g8", "b1c3 b8c6 c3b1 c6b8 e2e4 tb b1c3 b8c6 c3b1",
 			"e2e4 e7e5 g1f3 b8c6 f3g1 c6b8 g1f3 b8c6 f3g1", "g1f3 g8f6 f3g1 f6g8 g1f3 g8f6 f3g1 f6g8 tb tb f3h4 tb f3g1"} {
 			kind := []string{"plain", "turochamp", "plain", "sargon", "turochamp"}[i]
@@ -2187,4 +2196,32 @@ func (n notifySearch) Search(ctx context.Context, sctx *search.Context, b *board
 		n.fn()
 	}
 	return nodes, sc, pv, err
+}
+
+// lateReturn holds the return of a halted search until the next search has been entered (plus a few milliseconds), at most 2 s.
+type lateReturn struct {
+	inner search.Search
+	mu    sync.Mutex
+	held  chan struct{}
+}
+
+func (l *lateReturn) Search(ctx context.Context, sctx *search.Context, b *board.Board, depth int) (uint64, eval.Score, []board.Move, error) {
+	l.mu.Lock()
+	if h := l.held; h != nil {
+		l.held = nil
+		time.AfterFunc(3*time.Millisecond, func() { close(h) })
+	}
+	l.mu.Unlock()
+	n, sc, pv, err := l.inner.Search(ctx, sctx, b, depth)
+	if err == search.ErrHalted {
+		h := make(chan struct{})
+		l.mu.Lock()
+		l.held = h
+		l.mu.Unlock()
+		select {
+		case <-h:
+		case <-time.After(2 * time.Second):
+		}
+	}
+	return n, sc, pv, err
 }
